@@ -110,6 +110,28 @@ class NameFixPass(ir.passes.InPlacePass):
         value_counter: collections.Counter[str] = collections.Counter()
         node_counter: collections.Counter[str] = collections.Counter()
 
+        # Names that already exist anywhere in this graph (and its subgraphs). Generated
+        # names must avoid them too, otherwise a value visited later would lose a name
+        # that was unique to begin with.
+        self._reserved_value_names: set[str] = set()
+        self._reserved_node_names: set[str] = set()
+        all_graphs = [graph_like]
+        for node in ir.traversal.RecursiveGraphIterator(
+            graph_like, enter_graph=lambda g: all_graphs.append(g) if g is not graph_like else None
+        ):
+            if node.name:
+                self._reserved_node_names.add(node.name)
+            for value in (*node.inputs, *node.outputs):
+                if value is not None and value.name:
+                    self._reserved_value_names.add(value.name)
+        for graph in all_graphs:
+            graph_values = [*graph.inputs, *graph.outputs]
+            if isinstance(graph, ir.Graph):
+                graph_values.extend(graph.initializers.values())
+            for value in graph_values:
+                if value.name:
+                    self._reserved_value_names.add(value.name)
+
         def enter_graph(graph_like) -> None:
             """Callback for entering a subgraph."""
             # Initialize new scopes with all names from the parent scope
@@ -210,7 +232,9 @@ class NameFixPass(ir.passes.InPlacePass):
         )
 
         preferred_name = self._name_generator.generate_value_name(value)
-        value.name = _find_and_record_next_unique_name(preferred_name, used_names, counter)
+        value.name = _find_and_record_next_unique_name(
+            preferred_name, used_names, counter, self._reserved_value_names
+        )
         logger.debug("Assigned name %s to unnamed value", value.name)
         return True
 
@@ -223,7 +247,9 @@ class NameFixPass(ir.passes.InPlacePass):
         )
 
         preferred_name = self._name_generator.generate_node_name(node)
-        node.name = _find_and_record_next_unique_name(preferred_name, used_names, counter)
+        node.name = _find_and_record_next_unique_name(
+            preferred_name, used_names, counter, self._reserved_node_names
+        )
         logger.debug("Assigned name %s to unnamed node", node.name)
         return True
 
@@ -244,7 +270,9 @@ class NameFixPass(ir.passes.InPlacePass):
 
         # If name is already used, make it unique
         base_name = self._name_generator.generate_value_name(value)
-        value.name = _find_and_record_next_unique_name(base_name, used_names, counter)
+        value.name = _find_and_record_next_unique_name(
+            base_name, used_names, counter, self._reserved_value_names
+        )
         logger.debug("Renamed value from %s to %s for uniqueness", original_name, value.name)
         return True
 
@@ -263,17 +291,25 @@ class NameFixPass(ir.passes.InPlacePass):
 
         # If name is already used, make it unique
         base_name = self._name_generator.generate_node_name(node)
-        node.name = _find_and_record_next_unique_name(base_name, used_names, counter)
+        node.name = _find_and_record_next_unique_name(
+            base_name, used_names, counter, self._reserved_node_names
+        )
         logger.debug("Renamed node from %s to %s for uniqueness", original_name, node.name)
         return True
 
 
 def _find_and_record_next_unique_name(
-    preferred_name: str, used_names: set[str], counter: collections.Counter[str]
+    preferred_name: str,
+    used_names: set[str],
+    counter: collections.Counter[str],
+    reserved_names: frozenset[str] | set[str] = frozenset(),
 ) -> str:
-    """Generate a unique name based on the preferred name and current counter."""
+    """Generate a unique name based on the preferred name and current counter.
+
+    ``reserved_names`` are names that exist in the graph but may not have been visited yet.
+    """
     new_name = preferred_name
-    while new_name in used_names:
+    while new_name in used_names or new_name in reserved_names:
         counter[preferred_name] += 1
         new_name = f"{preferred_name}_{counter[preferred_name]}"
     used_names.add(new_name)
